@@ -161,8 +161,8 @@ fn v(i: i64) -> Val {
 }
 
 fn probes() -> Vec<(&'static str, Case)> {
-    let s2 = Schema { int_col: vec![true, true], pk: true, uniques: vec![] };
-    let snp = Schema { int_col: vec![true, true], pk: false, uniques: vec![] };
+    let s2 = Schema { kinds: vec![], int_col: vec![true, true], pk: true, uniques: vec![] };
+    let snp = Schema { kinds: vec![], int_col: vec![true, true], pk: false, uniques: vec![] };
     let sp = |n: &str| Stmt::Savepoint(n.into());
     let rb = |n: &str| Stmt::RollbackTo(n.into());
     let ins = |a: i64, b: i64| Stmt::Insert(vec![vec![v(a), v(b)]]);
